@@ -1535,7 +1535,16 @@ class DiameterMessage:
 
 
     def __setitem__(self, idx: int, value: DiameterAVP) -> None:
+        old = self._avps[idx]
         self._avps[idx] = value
+
+        #: The attribute that referred to the replaced AVP now refers to the
+        #: new one, and the Message Length follows the new content.
+        for key, item in self.__dict__.items():
+            if item is old and key not in ("_header", "_avps"):
+                self.__dict__[key] = value
+
+        self.refresh()
 
 
     @property
